@@ -292,6 +292,18 @@ def _wrap_sni_socket(sock: socket.socket, sslopt: dict, hostname, check_hostname
         if "ecdh_curve" in sslopt:
             context.set_ecdh_curve(sslopt["ecdh_curve"])
 
+    if isinstance(hostname, str):
+        # the TLS layer encodes the name with the idna codec and refuses a
+        # leading dot; behind a proxy no resolver has looked at the name yet
+        # (it may come from a redirect), so that failure is an address error
+        # here, not a bare UnicodeError / ValueError
+        try:
+            if hostname.startswith("."):
+                raise UnicodeError("host name starts with a dot")
+            hostname.encode("idna")
+        except UnicodeError as e:
+            raise WebSocketAddressException(e)
+
     return context.wrap_socket(
         sock,
         do_handshake_on_connect=sslopt.get("do_handshake_on_connect", True),
